@@ -35,6 +35,8 @@ type Case struct {
 	Register     []string   `json:"register,omitempty"` // object types bound with RegisterType
 	Faults       []hx.Fault `json:"faults,omitempty"`
 	Echo         bool       `json:"echo,omitempty"`
+	// CrossedNames (universe): an object type is named like the Go type bound to another object type
+	CrossedNames bool `json:"crossed_names,omitempty"`
 	// LateJoin: memberships the schema gets only after the root has been used - "T implements I" or
 	// "U = T": the first load leaves them out, the request is resolved once (response not looked at),
 	// then the extension arrives. (If the schema without them is refused, they are there from the start.)
